@@ -14,6 +14,9 @@
 //	        ladders of texts / blobs / arrays through the length classes 0..3
 //	enum    random samples of the specification's small-scope enumeration
 //	rand    large random values (depth <= 4) and mutated copies of them
+//	extreme ladders through the full range of every payload domain, embedded as scalars, array
+//	        elements, map keys, container items (mut.go)
+//	mut     live objects: rounds of public mutators between judgements, fresh twins (mut.go)
 //	kf_*    witnesses of open known findings (none at present)
 //
 // NaN never occurs in a pool (the property is silent about it; the spec skips NaN members anyway).
@@ -284,7 +287,9 @@ func noNaN(ns []*valgen.Node) []*valgen.Node {
 
 func Run(c *core.Ctx) error {
 	c.Rule = "pools of values built through the public constructors plus the objects ReadValue returns for their encodings; Equals and CompareTo called on every ordered pair; " +
-		"a pool is non-trivial if it holds values of several types and at least two of one type; distinct by (generator, structural signatures of the members)"
+		"a pool is non-trivial if it holds values of several types and at least two of one type; distinct by (generator, structural signatures of the members); " +
+		"gen mut: the objects live on through 1..3 rounds of public mutators, each round judged with decoded copies and fresh twins; non-trivial if a mutator ran; " +
+		"distinct by (signatures of the members, sequence of mutators)"
 	t := c.Trace("c20_pools", "Trace_ValueLaws")
 	size := 20 // originals per pool (the pool holds twice as many members)
 
@@ -372,6 +377,35 @@ func Run(c *core.Ctx) error {
 			judge(c, t, "rand", cas, ns)
 			if cas == 0 {
 				c.Sample(core.Ev{"gen": "rand", "case": 0, "members": 2 * len(ns), "signatures": []string{ns[0].Sig(6), ns[1].Sig(6), ns[2].Sig(6)}})
+			}
+		}
+	}
+
+	// a second trace file: validated by its own TLC beside the first
+	t2 := c.Trace("c20_live", "Trace_ValueLaws")
+	if c.WantGen("extreme") {
+		for cas := 0; cas < c.Pick(len(embeddings()), 8*len(embeddings())); cas++ {
+			if !c.Want("extreme", cas) {
+				continue
+			}
+			ns, name := extremePool(c.Rng("extreme", cas), cas)
+			judge(c, t2, "extreme", cas, ns)
+			if cas == 3 {
+				c.Sample(core.Ev{"gen": "extreme", "case": cas, "embeddings": name, "members": 2 * len(ns), "first": valgen.Proj(ns[0]), "second": valgen.Proj(ns[1])})
+			}
+		}
+	}
+
+	if c.WantGen("mut") {
+		for cas := 0; cas < c.Pick(36, 700); cas++ {
+			if !c.Want("mut", cas) {
+				continue
+			}
+			r := c.Rng("mut", cas)
+			ns, e := mutMembers(r)
+			judgeLive(c, t2, "mut", cas, r, ns, e, 1+r.Intn(3))
+			if cas == 0 {
+				c.Sample(core.Ev{"gen": "mut", "case": 0, "live": len(ns), "members": 3 * len(ns), "first": valgen.Proj(ns[0]), "keys": e.keys})
 			}
 		}
 	}
